@@ -258,3 +258,42 @@ Qed.
 
 Lemma nodup_map_kkey : forall kvs, map (fun kv => leaf_value (fst kv)) kvs = map kkey kvs.
 Proof. reflexivity. Qed.
+
+(* ---- uniqueness and the symmetric reading of a key-wise correspondence ---- *)
+Lemma keyed_uniq {A} (ka : A -> pyval) : forall l x y,
+  nodup_vals (map ka l) = true -> In x l -> In y l -> py_eq (ka x) (ka y) = true -> x = y.
+Proof.
+  intros l x y Hn Hx Hy E.
+  pose proof (findk_in ka l x Hn Hx) as Fx. pose proof (findk_in ka l y Hn Hy) as Fy.
+  rewrite (findk_congr ka _ _ l E) in Fx. congruence.
+Qed.
+
+Lemma filter_nil_iff {A} (p : A -> bool) : forall l, filter p l = [] <-> (forall x, In x l -> p x = false).
+Proof.
+  induction l as [|a r IH]; simpl; split; intros H; auto.
+  - intros x []. 
+  - destruct (p a) eqn:E; [discriminate|]. intros x [<-|Hx]; auto. apply IH; auto.
+  - rewrite (H a (or_introl eq_refl)). apply IH. intros x Hx. apply H; auto.
+Qed.
+
+Lemma keyed_sym {A B} (ka : A -> pyval) (kb : B -> pyval) (P : A -> B -> Prop) : forall l r,
+  nodup_vals (map ka l) = true -> nodup_vals (map kb r) = true -> List.length l = List.length r ->
+  (forall a, In a l -> exists b, In b r /\ py_eq (ka a) (kb b) = true /\ P a b) ->
+  forall b, In b r -> exists a, In a l /\ py_eq (ka a) (kb b) = true /\ P a b.
+Proof.
+  intros l r Hl Hr Hlen H b Hb.
+  assert (D : dels_of ka kb l r = []).
+  { unfold dels_of. apply filter_nil_iff. intros a Ha. apply negb_false_iff.
+    destruct (H a Ha) as [b' [Hb' [E _]]]. unfold hask. apply existsb_exists. exists b'. split; auto.
+    apply py_eq_sym; auto. }
+  pose proof (join_lengths ka kb l r Hl Hr) as J. rewrite D in J. simpl in J.
+  assert (Ad : filter (fun b0 => negb (hask ka (kb b0) l)) r = []).
+  { destruct (filter (fun b0 => negb (hask ka (kb b0) l)) r); auto. simpl in J. lia. }
+  pose proof (proj1 (filter_nil_iff _ r) Ad b Hb) as Hh. apply negb_false_iff in Hh.
+  rewrite hask_findk in Hh. destruct (findk ka (kb b) l) as [a|] eqn:F; try discriminate.
+  apply findk_some in F. destruct F as [Ha E].
+  destruct (H a Ha) as [b' [Hb' [E' Pab]]].
+  assert (b' = b).
+  { apply (keyed_uniq kb r b' b Hr Hb' Hb). eapply py_eq_trans; [apply py_eq_sym; exact E' | exact E]. }
+  subst b'. exists a. auto.
+Qed.
